@@ -22,6 +22,8 @@ type C14Case struct {
 	Reader string `json:"reader,omitempty"` // npy/csv: how the stream delivers (""|half|onebyte|bufio16|dataerr)
 	// UsedRecv: the receiver was decoded into before (a masked tensor with as many elements)
 	UsedRecv bool `json:"usedRecv,omitempty"`
+	// RecvCM (with UsedRecv): the used receiver is a live column-major masked matrix built by the constructor
+	RecvCM bool `json:"recvCM,omitempty"`
 	// BackedRecv: the receiver was built over a slice the caller holds (float tensors: with their engine)
 	BackedRecv bool `json:"backedRecv,omitempty"`
 }
@@ -33,7 +35,7 @@ func (c *C14Case) NTKey() string {
 	if c.A.L.IsContig() && !c.A.L.IsCM() && c.A.Mask == nil && len(c.A.Shape) == 2 && d.IsFloat() {
 		return ""
 	}
-	return fmt.Sprintf("%s|%s|%v|%v|%v|%s|%s|%v|%v", c.Format, c.DT, c.A.Shape, c.A.L, c.A.Mask != nil, c.Then, c.Reader, c.UsedRecv, c.BackedRecv)
+	return fmt.Sprintf("%s|%s|%v|%v|%v|%s|%s|%v|%v|%v", c.Format, c.DT, c.A.Shape, c.A.L, c.A.Mask != nil, c.Then, c.Reader, c.UsedRecv, c.BackedRecv, c.RecvCM)
 }
 
 // formatAccepts: the element types each format documents.
@@ -216,10 +218,26 @@ func (c *C14Case) Run() string {
 			if penc, err := c14Encode(c.Format, pb.T); err == nil {
 				if _, err := c14DecodeInto(dec, c.Format, penc, d, ""); err == nil {
 					rec.Class("receiver:used")
+					if !dec.IsMasked() {
+						dec.ResetMask(true) // (a format without masks: the receiver gets one by hand, every bit set)
+					}
 				} else {
 					dec = new(tensor.Dense)
 				}
 			}
+		}
+	}
+	if c.UsedRecv && c.RecvCM && len(A.arr.Shape) > 0 && d.Name != "unsafe.Pointer" {
+		n := prod(A.arr.Shape)
+		shp := []int{n, 2}
+		prev := seqArr(d, shp, 5)
+		pm := make([]bool, len(prev.E))
+		for i := range pm {
+			pm[i] = i%3 != 0
+		}
+		if pb, err := Build(prev, Layout{Root: "cmraw"}, pm); err == nil {
+			dec = pb.T
+			rec.Class("receiver:live-column-major")
 		}
 	}
 	// ... or the receiver is a tensor the caller built over a slice of its own (with one of the engines):
@@ -311,6 +329,14 @@ func (c *C14Case) Run() string {
 		}
 	} else if c.A.Mask != nil && c.Format == "gob" {
 		return desc + ": the mask was lost"
+	}
+	if c.A.Mask == nil && dec.IsMasked() {
+		// an unmasked tensor reads back unmasked (a mask without a set bit is the same array)
+		for k, mb := range dec.Mask() {
+			if mb {
+				return desc + fmt.Sprintf(": the tensor had no mask, the decoded tensor is masked (bit %d of its mask is set)", k)
+			}
+		}
 	}
 	// the decoded tensor is consistent in itself: observers that trust its flags rather than its strides
 	// (whole-tensor views, cuts, clones, materialisation) and reductions along every axis see the same array
@@ -457,12 +483,16 @@ func genC14(rt *rapid.T, format string, d DT, lk string, masked bool) *C14Case {
 	}
 	c.Reader = rapid.SampledFrom([]string{"", "", "half", "onebyte", "bufio16", "dataerr"}).Draw(rt, "reader")
 	c.UsedRecv = rapid.IntRange(0, 3).Draw(rt, "usedrecv") == 0
+	c.RecvCM = c.UsedRecv && rapid.Bool().Draw(rt, "recvcm")
 	c.BackedRecv = !c.UsedRecv && rapid.IntRange(0, 3).Draw(rt, "backedrecv") == 0
 	if !masked && rapid.IntRange(0, 2).Draw(rt, "chain") == 0 {
 		c.Then = rapid.SampledFrom([]string{"gob", "npy", "csv", "pb", "fb"}).Draw(rt, "then")
 	}
 	if masked {
-		c.A.L = Layout{Root: c.A.L.Root}
+		// masked tensors too are written by logical content: mostly plain, now and then lazily transposed or a view
+		if !(c.A.L.Final == "" && c.A.L.Root == "rm" && len(shape) > 0) {
+			c.A.L = Layout{Root: c.A.L.Root}
+		}
 		if c.A.L.Root == "cmconv" {
 			c.A.L.Root = "rm"
 		}
@@ -488,7 +518,7 @@ func TestC14(t *testing.T) {
 			}
 			format, d := format, d
 			cell(t, "C14", "C14.roundtrip", format+"/"+d.Name+"/masked", nCases(8, 250), func(rt *rapid.T) Case {
-				return avoidC14Regions(genC14(rt, format, d, rapid.SampledFrom([]string{"contig", "cmraw"}).Draw(rt, "lk"), true))
+				return avoidC14Regions(genC14(rt, format, d, rapid.SampledFrom([]string{"contig", "cmraw", "contig", "lazyT", "sliced", "stepsliced"}).Draw(rt, "lk"), true))
 			})
 		}
 	}
